@@ -22,6 +22,8 @@ inductive MOp where
   /-- the process is killed in the middle of control `c`: log `i` had performed `ks[i]` of the
   primitives the control performs on its files (0 when not given); then a new process -/
   | die (c : Ctl) (ks : List Nat)
+  /-- fault injection: the `n`-th `os.rename` call on log `i`'s files from now raises `OSError` -/
+  | fault (i : Nat) (n : Nat)
 deriving DecidableEq, Repr, Inhabited
 
 /-- `if (store.stamp - flushStamp) >= flushPeriod: for log in logs: log.flush(); flushStamp = store.stamp`
@@ -79,12 +81,18 @@ def cutAll : List St → List St → Nat → List Nat → List St
   | s :: r, s' :: r', i, ks => St.cut s s' (ks.getD i 0) :: cutAll r r' (i + 1) ks
   | _, _, _, _ => []
 
+def setFault : MSt → Nat → Nat → MSt
+  | [], _, _ => []
+  | s :: r, 0, n => { s with failAt := some n } :: r
+  | s :: r, i + 1, n => s :: setFault r i n
+
 def MSt.step (ms : MSt) : MOp → MSt
   | .advance d => ms.map fun x => { x with stamp := x.stamp + d }
   | .batch i b => setBatch ms i b
   | .ctl c => MSt.send ms c
   | .reboot => ms.map St.reboot
   | .die c ks => cutAll ms (MSt.send ms c) 0 ks
+  | .fault i n => setFault ms i n
 
 def MSt.exec (ms : MSt) : List MOp → MSt
   | [] => ms
@@ -97,6 +105,7 @@ def projOp (i : Nat) : MOp → Option Op
   | .ctl c => some (.ctl c)
   | .reboot => some .reboot
   | .die c ks => some (.die c (ks.getD i 0))
+  | .fault j n => if j = i then some (.fault n) else none
 
 def proj (i : Nat) (h : List MOp) : List Op := h.filterMap (projOp i)
 
